@@ -20,6 +20,14 @@ type Builder struct {
 	mockers map[interface{}]Mocker
 }
 
+// exportKey 未导出结构体/函数 Mocker 的缓存 key
+// 包名和名称分开保存: 拼接成 pkg+"_"+name 时, ("a_b","T") 与 ("a","b_T") 会得到同一个 key
+type exportKey struct {
+	kind string
+	pkg  string
+	name string
+}
+
 // Pkg 指定包名，当前包无需指定
 // 对于跨包目录的私有函数的 mock 通常都是因为代码设计可能有问题, 此功能会在未来版本中移除
 // 后续仅支持同包下的未导出方法的 mock
@@ -83,7 +91,8 @@ func (b *Builder) cache(mKey interface{}, cachedMocker Mocker) {
 // Struct 指定结构体实例
 // 比如需要 mock 结构体函数 (*conn).Write(b []byte)，则 name="conn"
 func (b *Builder) Struct(instance interface{}) *CachedMethodMocker {
-	mKey := reflect.ValueOf(instance).Type().String()
+	// 以 reflect.Type 本身作为 key: Type.String() 只包含包名(路径最后一段), 不同路径下同名包的同名类型会互相命中缓存
+	mKey := reflect.TypeOf(instance)
 	if mocker, ok := b.mockers[mKey]; ok && !mocker.Canceled() {
 		b.reset2CurPkg()
 		return mocker.(*CachedMethodMocker)
@@ -120,7 +129,8 @@ func (b *Builder) Func(funcDef interface{}) *DefMocker {
 // ExportStruct 导出私有结构体
 // 比如需要 mock 结构体函数 (*conn).Write(b []byte)，则 name="conn"
 func (b *Builder) ExportStruct(name string) *CachedUnexportedMethodMocker {
-	if mocker, ok := b.mockers[b.pkgName+"_"+name]; ok && !mocker.Canceled() {
+	mKey := exportKey{kind: "struct", pkg: b.pkgName, name: name}
+	if mocker, ok := b.mockers[mKey]; ok && !mocker.Canceled() {
 		b.reset2CurPkg()
 		return mocker.(*CachedUnexportedMethodMocker)
 	}
@@ -132,7 +142,7 @@ func (b *Builder) ExportStruct(name string) *CachedUnexportedMethodMocker {
 
 	mocker := NewUnexportedMethodMocker(b.pkgName, structName)
 	cachedMocker := NewCachedUnexportedMethodMocker(mocker)
-	b.cache(b.pkgName+"_"+name, cachedMocker)
+	b.cache(mKey, cachedMocker)
 	b.reset2CurPkg()
 	return cachedMocker
 }
@@ -146,13 +156,14 @@ func (b *Builder) ExportFunc(name string) *UnexportedFuncMocker {
 		panic("func name is empty")
 	}
 
-	if mocker, ok := b.mockers[b.pkgName+"_"+name]; ok && !mocker.Canceled() {
+	mKey := exportKey{kind: "func", pkg: b.pkgName, name: name}
+	if mocker, ok := b.mockers[mKey]; ok && !mocker.Canceled() {
 		b.reset2CurPkg()
 		return mocker.(*UnexportedFuncMocker)
 	}
 
 	mocker := NewUnexportedFuncMocker(b.pkgName, name)
-	b.cache(b.pkgName+"_"+name, mocker)
+	b.cache(mKey, mocker)
 	b.reset2CurPkg()
 	return mocker
 }
